@@ -272,6 +272,18 @@ func c17R1Auth(c *Ctx) {
 			res := ErrFlow(r, ErrFlowOpts{})
 			c.Check(RA, fmt.Sprintf("%s|rewind#%d-error-returned", FnName(g), n+1), r.Pos(), res.OK, res.How+res.Detail)
 		}
+		for _, ci := range Calls(g, func(string) bool { return true }) { // factories of rewound requests used by the sender
+			F := StaticCallee(ci)
+			if !c17RewoundFactory(F, RW) {
+				continue
+			}
+			res := ErrFlow(ci, ErrFlowOpts{})
+			c.Check(RA, fmt.Sprintf("%s|%s-error-returned", FnName(g), FnName(F)), ci.Pos(), res.OK, res.How+res.Detail)
+			for n, r := range c13CallsToFn(F, RW) {
+				res := ErrFlow(r, ErrFlowOpts{})
+				c.Check(RA, fmt.Sprintf("%s|rewind#%d-error-returned", FnName(F), n+1), r.Pos(), res.OK, res.How+res.Detail)
+			}
+		}
 		for _, hc := range c13CallsToFn(Do, g) { // the helper's failure is Do's failure
 			res := ErrFlow(hc, ErrFlowOpts{})
 			c.Check(RA, fmt.Sprintf("%s|%s-error-returned", dn, FnName(g)), hc.Pos(), res.OK, res.How+res.Detail)
@@ -328,11 +340,68 @@ func c17RewindingSender(g *ssa.Function, RW *ssa.Function, depth int) (bool, str
 				ct.Edges(nilE...)
 			}
 		}
+		// the request may come from a factory that hands out rewound requests only
+		if req != nil {
+			for _, rt := range Roots(req) {
+				ex, isEx := rt.(*ssa.Extract)
+				if !isEx || ex.Index != 0 {
+					continue
+				}
+				fc, isCall := ex.Tuple.(*ssa.Call)
+				if !isCall || !c17RewoundFactory(StaticCallee(fc), RW) {
+					continue
+				}
+				if e := ErrOf(fc); e != nil {
+					nilE, _, _ := NilTests(g, Aliases(e))
+					ct.Edges(nilE...)
+				}
+			}
+		}
 		if len(ct.edges) == 0 || !MustPass(s.(ssa.Instruction), ct) {
 			return false, "a path reaches its send without a successful rewind of the request sent"
 		}
 	}
 	return true, ""
+}
+
+// c17RewoundFactory: F returns (*http.Request, error) and every return with a
+// possibly-nil error hands out a request on which the rewind helper succeeded.
+func c17RewoundFactory(F *ssa.Function, RW *ssa.Function) bool {
+	if F == nil || !inModule(F) || len(F.Blocks) == 0 {
+		return false
+	}
+	rs := F.Signature.Results()
+	if rs.Len() != 2 || !c13IsPtrTo(rs.At(0).Type(), c13PkgHTTP, "Request") || !isErrorType(rs.At(1).Type()) {
+		return false
+	}
+	rcalls := c13CallsToFn(F, RW)
+	some := false
+	for _, r := range Returns(F) {
+		if ErrNilStatus(r.Results[1], 0) == NonNil {
+			continue
+		}
+		if nn := func() bool { // returned on the non-nil side of its own test
+			_, nonNil, _ := NilTests(F, Aliases(r.Results[1]))
+			return len(nonNil) > 0 && MustPass(r, newCut().Edges(nonNil...))
+		}(); nn {
+			continue
+		}
+		ct := newCut()
+		for _, rc := range rcalls {
+			if !c17SameReq(rc.Common().Args[0], r.Results[0]) {
+				continue
+			}
+			if e := ErrOf(rc); e != nil {
+				nilE, _, _ := NilTests(F, Aliases(e))
+				ct.Edges(nilE...)
+			}
+		}
+		if len(ct.edges) == 0 || !MustPass(r, ct) {
+			return false
+		}
+		some = true
+	}
+	return some
 }
 
 // ---------- RoundTrip ----------
